@@ -138,11 +138,13 @@ def PState.addLog (l : List Event) (ps : PState α) : PState α := { ps with log
 @[simp] theorem PState.addLog_evals (l : List Event) (ps : PState α) : (ps.addLog l).evals = ps.evals := rfl
 @[simp] theorem PState.addLog_calls (l : List Event) (ps : PState α) : (ps.addLog l).calls = ps.calls := rfl
 @[simp] theorem PState.addLog_nLocal (l : List Event) (ps : PState α) : (ps.addLog l).nLocal = ps.nLocal := rfl
+@[simp] theorem PState.addLog_refined (l : List Event) (ps : PState α) : (ps.addLog l).refined = ps.refined := rfl
 @[simp] theorem PState.addLog_log (l : List Event) (ps : PState α) : (ps.addLog l).log = l ++ ps.log := rfl
 @[simp] theorem PState.core_m (ps : PState α) : ps.core.m = ps.m := rfl
 @[simp] theorem PState.core_evals (ps : PState α) : ps.core.evals = ps.evals := rfl
 @[simp] theorem PState.core_calls (ps : PState α) : ps.core.calls = ps.calls := rfl
 @[simp] theorem PState.core_nLocal (ps : PState α) : ps.core.nLocal = ps.nLocal := rfl
+@[simp] theorem PState.core_refined (ps : PState α) : ps.core.refined = ps.refined := rfl
 @[simp] theorem PState.core_log (ps : PState α) : ps.core.log = [] := rfl
 @[simp] theorem PState.core_addLog (l : List Event) (ps : PState α) : (ps.addLog l).core = ps.core := rfl
 @[simp] theorem PState.core_core (ps : PState α) : ps.core.core = ps.core := rfl
@@ -156,7 +158,8 @@ theorem PState.addLog_addLog (l l' : List Event) (ps : PState α) :
 
 /-- two states with the same log-free part -/
 theorem PState.core_eq_iff {ps ps' : PState α} :
-    ps.core = ps'.core ↔ ps.m = ps'.m ∧ ps.evals = ps'.evals ∧ ps.nLocal = ps'.nLocal ∧ ps.calls = ps'.calls := by
+    ps.core = ps'.core ↔ ps.m = ps'.m ∧ ps.evals = ps'.evals ∧ ps.nLocal = ps'.nLocal ∧ ps.calls = ps'.calls ∧
+      ps.refined = ps'.refined := by
   cases ps; cases ps'; simp [PState.core]
 
 theorem PState.ext_core_log {ps ps' : PState α} (h : ps.core = ps'.core) (hl : ps.log = ps'.log) : ps = ps' := by
@@ -270,6 +273,21 @@ theorem oneIteration_error {p : Params α} {f : Nat → List α → Option α} {
         cases h
         exact ⟨rfl, rfl, .inl ⟨rfl, rfl, _, hz, .inr ⟨s, pr, hm, hpr, rfl, rfl, rfl⟩⟩⟩
       · cases h
+
+/-- the global search never touches `__refinedTrial` -/
+theorem oneIteration_ok_refined {p : Params α} {f : Nat → List α → Option α} {ps ps' : PState α} {id : Nat}
+    (h : oneIteration p f ps = .ok (ps', id)) : ps'.refined = ps.refined := by
+  rw [oneIteration_eq] at h
+  repeat' split at h
+  all_goals cases h
+  all_goals rfl
+
+theorem oneIteration_error_refined {p : Params α} {f : Nat → List α → Option α} {ps ps' : PState α} {e : Raise}
+    (h : oneIteration p f ps = .error (ps', e)) : ps'.refined = ps.refined := by
+  rw [oneIteration_eq] at h
+  repeat' split at h
+  all_goals cases h
+  all_goals rfl
 
 /-! ### the `for` loop of `DoGlobalIteration` -/
 
@@ -492,6 +510,34 @@ theorem iterN_ok_some {p : Params α} {f : Nat → List α → Option α} {k : N
         have h4 := ih h3.1 h2
         exact ⟨h4.1, by rw [h4.2, h3.2]⟩
 
+theorem iterN_ok_refined {p : Params α} {f : Nat → List α → Option α} {k : Nat} {ps ps' : PState α} {ids : List Nat}
+    (h : iterN p f k ps = .ok (ps', ids)) : ps'.refined = ps.refined := by
+  induction k generalizing ps ids with
+  | zero => simp only [iterN, Except.ok.injEq, Prod.mk.injEq] at h; obtain ⟨rfl, -⟩ := h; rfl
+  | succ k ih =>
+    rw [iterN] at h
+    split at h
+    · cases h
+    · next ps1 id h1 =>
+      split at h
+      · cases h
+      · next ps2 ids2 h2 =>
+        cases h
+        rw [ih h2, oneIteration_ok_refined h1]
+
+theorem iterN_error_refined {p : Params α} {f : Nat → List α → Option α} {k : Nat} {ps ps' : PState α} {e : Raise}
+    (h : iterN p f k ps = .error (ps', e)) : ps'.refined = ps.refined := by
+  induction k generalizing ps with
+  | zero => simp [iterN] at h
+  | succ k ih =>
+    rw [iterN] at h
+    split at h
+    · next x h1 => cases h; exact oneIteration_error_refined h1
+    · next ps1 id h1 =>
+      split at h
+      · next x h2 => cases h; rw [ih h2, oneIteration_ok_refined h1]
+      · cases h
+
 /-! ### `solveLoop` -/
 
 /-- append to the event log -/
@@ -503,6 +549,7 @@ def PState.appendLog (ps : PState α) (l : List Event) : PState α := { ps with 
 @[simp] theorem PState.appendLog_evals (ps : PState α) (l : List Event) : (ps.appendLog l).evals = ps.evals := rfl
 @[simp] theorem PState.appendLog_calls (ps : PState α) (l : List Event) : (ps.appendLog l).calls = ps.calls := rfl
 @[simp] theorem PState.appendLog_nLocal (ps : PState α) (l : List Event) : (ps.appendLog l).nLocal = ps.nLocal := rfl
+@[simp] theorem PState.appendLog_refined (ps : PState α) (l : List Event) : (ps.appendLog l).refined = ps.refined := rfl
 
 theorem solveLoop_succ (p : Params α) (f : Nat → List α → Option α) (fuel : Nat) (ps : PState α) :
     solveLoop p f (fuel + 1) ps =
